@@ -105,6 +105,35 @@ def limit_programs(quick):
         uses = " + ".join(["a%d" % i for i in range(na)] + ["b%d" % i for i in range(nb)])
         src = "let z = 1; let __o = []; fn o() { %s fn() { %s fn() { %s } } } push(__o, o()()());" % (la, lb, uses)
         P.append(("captured-two-levels-%d+%d" % (na, nb), src, ("obs", [str(na + nb)]) if na + nb <= 255 else ("reject",), "probe"))
+    # ---- forward jumps whose target, cut to 16 bits, equals the 0xFFFF placeholder they were emitted with (131071, 196607):
+    # body bytes = 4 per `a;`, 5 per `-a;`; exit target of `fn f(c) { while c { BODY } ... }` = len(BODY) + 8
+    for target in ((131071,) if quick else (131071, 196607, 131071 + 65536 * 2)):
+        nb = target - 8
+        for delta in (0, -4, 4, 1):
+            x, y = (nb + delta - 15) // 4, 3
+            body = "a; " * x + "-a; " * y
+            if delta == 1:
+                body += "-a; -a; -a; -a; " [:0]      # (kept: a target one off the special value)
+                body = "a; " * ((nb + 1 - 20) // 4) + "-a; " * 4
+            P.append(("jump-placeholder-target-%d%+d" % (target, delta), "let a = 1; fn f(c) { while c { %s } return 0; } let z = 1;" % body, ("reject",), "binary"))
+    if not quick:
+        # a capturing function literal compiled when the constant pool is just about full: a window of pool sizes around
+        # 65536 (each filler function holds distinct integer literals); either the program is rejected or it prints 4
+        for where, tail in (("filter-end", "@ end { let k = z; let f = fn(x) { x + k }; push(__o, f(z)); puts(__o); }"),
+                            ("function", "fn g() { let k = z; let f = fn(x) { x + k }; f(z) } push(__o, g());"),
+                            ("toplevel-block", "{ let k = z; let f = fn(x) { x + k }; push(__o, f(z)); }")):
+            for total in range(65536 - 45, 65536 + 3):
+                parts = []
+                left = total
+                base = 100000
+                fi = 0
+                while left > 0:
+                    take = min(4000, left)
+                    parts.append("fn fill%d() { [%s] }" % (fi, ", ".join(str(base + j) for j in range(take))))
+                    base += take
+                    left -= take
+                    fi += 1
+                P.append(("constants-near-full-then-closure-%s-%d" % (where, total), "let z = 2; let __o = [];\n" + "\n".join(parts) + "\n" + tail, ("obs-or-reject", ["4"]), "binary-slow"))
     # ---- backward jumps (the closing jump of loop / while, continue) are emitted with their final target
     for n, far in ((15000, False), (16500, True)):
         body = " ".join("a;" for _ in range(n))
@@ -195,6 +224,10 @@ def run(chk):
         elif exp[0] == "accept":
             if oc in ("compile_error", "parse_errors"):
                 chk.violation("limit-rejected-below|" + name.rsplit("-", 1)[0], "%s: within the limits but rejected: %s" % (name, diag), {"name": name})
+        elif exp[0] == "obs-or-reject":
+            if oc != "compile_error" and (oc != "ok" or obs != exp[1]):
+                chk.violation("limit-miscompiled|" + name.rsplit("-", 1)[0], "%s: either a compile error or %s is right, got %s %s %s" % (name, exp[1], oc, obs, diag or ""),
+                              {"name": name, "outcome": oc, "observed": obs})
         elif exp[0] == "ok-last-first":
             if oc != "ok" or not obs or len(obs) != 2 or obs[1] != "1000000":
                 chk.violation("limit-miscompiled|" + name.rsplit("-", 1)[0], "%s: within the limits, expected [last, first constant], got %s %s %s" % (name, oc, obs, diag or ""),
@@ -237,8 +270,13 @@ def run(chk):
             i, (name, src, exp, veh) = item
             path = os.path.join(work, "L%d.p2" % i)
             with open(path, "w") as f:
-                f.write(src + ("\nputs(__o);\n" if "__o" in src else "\nputs(\"compiled\");\n"))
-            rr = core.run_binary([path], release=True, timeout=900, step_budget=5000000)
+                f.write(src + ("" if "@ end" in src else ("\nputs(__o);\n" if "__o" in src else "\nputs(\"compiled\");\n")))
+            # allocator settings only: the compiler reallocates its instruction vector on every emit, which the default
+            # trimming turns into minutes for 100 KiB of code
+            menv = dict(os.environ, MALLOC_TOP_PAD_="268435456", MALLOC_TRIM_THRESHOLD_="536870912", MALLOC_MMAP_THRESHOLD_="1073741824")
+            from . import pkt as _pkt
+            rr = core.run_binary((["-s"] if "@ end" in src else []) + [path], release=True, timeout=900, step_budget=5000000, env=menv,
+                                 stdin_data=(_pkt.pcap_header() if "@ " in src else b""))
             os.unlink(path)
             return rr
         with ThreadPoolExecutor(max_workers=core.NCPU) as ex:
